@@ -61,6 +61,11 @@ func tableConcat(L *LState) int {
 			return 1
 		}
 	}
+	if i > j {
+		// manual: "If i is greater than j, returns the empty string" (decided before the bounds are clamped)
+		L.Push(emptyLString)
+		return 1
+	}
 	i = intMax(intMin(i, tbl.Len()), 1)
 	j = intMin(intMin(j, tbl.Len()), tbl.Len())
 	if i > j {
